@@ -437,6 +437,110 @@ fn failed_leader_with_queued_writers(seed: u64) -> Vec<Fail> {
     fails
 }
 
+/// a writer parked in `make_room_for_write` behind a flush that then FAILS: the worker records the
+/// sticky error and notifies; the writer must come back with the error (the loop of
+/// `make_room_for_write` re-reads the error at the top of every iteration - `Rain.MakeRoom.branch`
+/// starts with it), and so must every later call and the close
+fn writer_waits_for_failing_flush(seed: u64) -> Vec<Fail> {
+    let mut rng = Prng::new(seed);
+    let mut fails = vec![];
+    let fs = SimFs::new();
+    let mut cfg = Cfg::gen(&mut rng);
+    cfg.memtable = *rng.pick(&[512usize, 1024, 2048]);
+    let db = match open(&cfg, &fs) {
+        Ok(d) => Arc::new(d),
+        Err(f) => return vec![f],
+    };
+    crate::sched::reset();
+    let point = *rng.pick(&["bg:building-table", "bg:manifest-write"]);
+    let gate = crate::sched::arm("bg", point, 1);
+    let mut i = 0u64;
+    while !gate.wait_parked(Duration::from_millis(1)) && i < 2000 {
+        let _ = db.put(WriteOptions::default(), format!("k{:05}", i).into_bytes(), vec![b'v'; 40]);
+        i += 1;
+    }
+    if !gate.wait_parked(Duration::from_secs(5)) {
+        gate.release();
+        crate::sched::reset();
+        return fails;
+    }
+    // the flush is parked: a writer fills the new memtable and then has to wait for it
+    let progress = Arc::new(std::sync::atomic::AtomicU64::new(0));
+    let finished = Arc::new(AtomicBool::new(false));
+    let writer = {
+        let (db, progress, finished, n) = (Arc::clone(&db), Arc::clone(&progress), Arc::clone(&finished), (cfg.memtable as u64 / 50) * 4 + 40);
+        std::thread::spawn(move || {
+            crate::sched::set_role("wW");
+            let mut errors = 0u64;
+            for j in 0..n {
+                if db.put(WriteOptions::default(), format!("w{:05}", j).into_bytes(), vec![b'w'; 60]).is_err() {
+                    errors += 1;
+                }
+                progress.fetch_add(1, Ordering::SeqCst);
+            }
+            finished.store(true, Ordering::SeqCst);
+            errors
+        })
+    };
+    // wait until the writer has stopped making progress (blocked behind the parked flush)
+    let mut last = (progress.load(Ordering::SeqCst), std::time::Instant::now());
+    let t0 = std::time::Instant::now();
+    while t0.elapsed() < Duration::from_secs(5) && !finished.load(Ordering::SeqCst) {
+        std::thread::sleep(Duration::from_millis(5));
+        let now = progress.load(Ordering::SeqCst);
+        if now != last.0 {
+            last = (now, std::time::Instant::now());
+        } else if last.1.elapsed() > Duration::from_millis(300) {
+            break;
+        }
+    }
+    let blocked = !finished.load(Ordering::SeqCst);
+    // everything the parked flush does from now on fails
+    fs.reset_calls();
+    fs.set_fault(Some(crate::simfs::FaultPlan { at: 0, sticky: true, partial: false }));
+    gate.release();
+    let t0 = std::time::Instant::now();
+    while !writer.is_finished() && t0.elapsed() < Duration::from_secs(15) {
+        std::thread::sleep(Duration::from_millis(5));
+    }
+    fs.set_fault(None);
+    if !writer.is_finished() {
+        fails.push(("c09:writer-waiting-for-a-failed-flush-never-returns".into(), format!("a put that was {} behind a memtable flush parked at {point} did not return within 15 s after the flush failed under an injected I/O fault ({} filesystem faults fired; {} of its puts had returned): the worker recorded the error and notified, the writer never looked at it", if blocked { "waiting in make_room_for_write" } else { "running" }, fs.faults_fired(), progress.load(Ordering::SeqCst))));
+        crate::sched::reset();
+        std::mem::forget(db);
+        return fails;
+    }
+    let _ = writer.join();
+    // a later call and the close must return as well
+    let flag = Arc::new(AtomicBool::new(false));
+    let (db2, f2) = (Arc::clone(&db), Arc::clone(&flag));
+    let later = std::thread::spawn(move || {
+        let _ = db2.put(WriteOptions::default(), b"later".to_vec(), b"x".to_vec());
+        f2.store(true, Ordering::SeqCst);
+    });
+    let t0 = std::time::Instant::now();
+    while !flag.load(Ordering::SeqCst) && t0.elapsed() < Duration::from_secs(10) {
+        std::thread::sleep(Duration::from_millis(2));
+    }
+    if !flag.load(Ordering::SeqCst) {
+        fails.push(("c09:write-after-failed-flush-never-returns".into(), format!("a put issued after a memtable flush (parked at {point}) had failed under an injected fault did not return within 10 s")));
+        crate::sched::reset();
+        std::mem::forget(db);
+        return fails;
+    }
+    let _ = later.join();
+    crate::sched::reset();
+    let closer = std::thread::spawn(move || drop(db));
+    let t0 = std::time::Instant::now();
+    while !closer.is_finished() && t0.elapsed() < Duration::from_secs(15) {
+        std::thread::sleep(Duration::from_millis(5));
+    }
+    if !closer.is_finished() {
+        fails.push(("c09:close-never-returns".into(), format!("closing the database after a memtable flush (parked at {point}) had failed under an injected fault did not return within 15 s")));
+    }
+    fails
+}
+
 /// degenerate option values
 fn degenerate(seed: u64) -> Vec<Fail> {
     let fs = SimFs::new();
@@ -527,7 +631,7 @@ fn snapshots_threads(seed: u64) -> Vec<Fail> {
 }
 
 pub fn rule() -> &'static str {
-    "watchdog scenarios on the real database: every descriptor kind; sustained multi-threaded writes with 256-512 byte memtables (memtable-full waits, level-0 slowdown and stop) with a concurrent manual compaction, closed immediately afterwards; closing while an iterator is alive; a group-commit leader parked before its WAL append with one to three calls (puts, a manual compaction) queued behind it, then an injected sticky fault (from the leader's own append on, or from the 1st-3rd call after it on: the rotation the next leader needs) - every queued call and a later put must return; closing while a background task is parked in the middle of a flush (scheduling hook) after no error, after a failed foreground WAL append, or with every further filesystem call of the task failing; degenerate option values (memtable 0/1/64, file size 0/1, block size 0/1); snapshots and iterators taken and released from several threads. A scenario that does not finish within its deadline is a hang; any panic of the compaction thread is recorded by the process-wide panic hook. Non-trivial = the scenario ran; distinct by (scenario, seed)."
+    "watchdog scenarios on the real database (the last one added: a writer parked in make_room_for_write behind a flush that then fails under an injected fault must come back with the error, as must a later put and the close): every descriptor kind; sustained multi-threaded writes with 256-512 byte memtables (memtable-full waits, level-0 slowdown and stop) with a concurrent manual compaction, closed immediately afterwards; closing while an iterator is alive; a group-commit leader parked before its WAL append with one to three calls (puts, a manual compaction) queued behind it, then an injected sticky fault (from the leader's own append on, or from the 1st-3rd call after it on: the rotation the next leader needs) - every queued call and a later put must return; closing while a background task is parked in the middle of a flush (scheduling hook) after no error, after a failed foreground WAL append, or with every further filesystem call of the task failing; degenerate option values (memtable 0/1/64, file size 0/1, block size 0/1); snapshots and iterators taken and released from several threads. A scenario that does not finish within its deadline is a hang; any panic of the compaction thread is recorded by the process-wide panic hook. Non-trivial = the scenario ran; distinct by (scenario, seed)."
 }
 
 pub fn run(tier: &str, seed: u64, replay: Option<&str>, shard: Option<ShardArgs>, drv_path: &str) -> Report {
@@ -544,6 +648,7 @@ pub fn run(tier: &str, seed: u64, replay: Option<&str>, shard: Option<ShardArgs>
         ("failed-leader-with-queued-writers", failed_leader_with_queued_writers, if thorough { 120 } else { 24 }, 60),
         ("degenerate", degenerate, 7, 40),
         ("snapshots-threads", snapshots_threads, if thorough { 40 } else { 6 }, 90),
+        ("writer-waits-for-failing-flush", writer_waits_for_failing_flush, if thorough { 90 } else { 16 }, 90),
     ];
     let run_one = |name: &str, f: fn(u64) -> Vec<Fail>, s: u64, secs: u64, rep: &mut Report| {
         let line = format!("c09 scenario={name} seed={s}");
